@@ -13,7 +13,7 @@ Rec == Log[vL]
 TimerOf2(t) == [c |-> t.c, s |-> t.s, m |-> t.m, p |-> t.p, u |-> t.u, mi |-> t.mi, sc |-> t.sc]
 IcuOf(i) == [req |-> i.req, en |-> i.en, ven |-> i.ven, vlo |-> i.vlo, vhi |-> i.vhi, vctx |-> i.vctx]
 
-MiuOf(m) == [base |-> m.base, z |-> m.z, pm |-> m.pm, xp |-> m.xp, yp |-> m.yp, xs |-> <<m.xs[1], m.xs[2]>>, ys |-> <<m.ys[1], m.ys[2]>>]
+MiuOf(m) == [base |-> m.base, z |-> m.z, pm |-> m.pm, xp |-> m.xp, yp |-> m.yp, xs |-> <<m.xs[1], m.xs[2]>>, ys |-> <<m.ys[1], m.ys[2]>>, live |-> TRUE]
 CoreObs(rec, mem) == [r |-> Unpack(rec.r), mem |-> mem, io |-> EmptyIo, acc |-> <<>>, out |-> "ok", idle |-> rec.idle = 1,
                       lat |-> <<rec.lat[1], rec.lat[2], rec.lat[3], rec.lat[4]>>, vaddr |-> rec.lat[5] * 65536 + rec.lat[6],
                       vctx |-> rec.lat[7], miu |-> MiuOf(rec.miu)]
@@ -37,7 +37,7 @@ FreshIsReset(rec) ==
     /\ [r EXCEPT !.sar = ResetRegs.sar, !.sarp = ResetRegs.sarp] = ResetRegs
     /\ TimerOf2(rec.tm[1]) = TM!ResetState /\ TimerOf2(rec.tm[2]) = TM!ResetState
     /\ [BtOf2(rec.bt[1]) EXCEPT !.pd = 4096] = BT!ResetState /\ [BtOf2(rec.bt[2]) EXCEPT !.pd = 4096] = BT!ResetState
-    /\ MiuOf(rec.miu) = MiuReset
+    /\ MiuOf(rec.miu) = MiuLive
     /\ ApOf(rec.ap[1]) = ApFresh /\ ApOf(rec.ap[2]) = ApFresh
     /\ rec.icu.req = 0 /\ rec.lat[1] = 0 /\ rec.lat[2] = 0 /\ rec.lat[3] = 0 /\ rec.lat[4] = 0
 
@@ -109,7 +109,7 @@ TEnd   == /\ (vPh = "host" \/ (vPh = "run" /\ (vK = 0 \/ vY.c.out # "ok")))
 
 TraceInit == /\ vL = 1 /\ vK = 0 /\ vPh = "idle" /\ vWr = {} /\ TLCSet(1, 0)
              /\ vY = [c |-> [r |-> ResetRegs, mem |-> [a \in {} |-> 0], io |-> EmptyIo, acc |-> <<>>, out |-> "ok", idle |-> FALSE,
-                            lat |-> <<0, 0, 0, 0>>, vaddr |-> 0, vctx |-> 0, miu |-> MiuReset],
+                            lat |-> <<0, 0, 0, 0>>, vaddr |-> 0, vctx |-> 0, miu |-> MiuLive],
                      tm |-> <<TM!ResetState, TM!ResetState>>, icu |-> IcuReset,
                      bt |-> <<BT!ResetState, BT!ResetState>>, ap |-> ApReset, cells |-> [o \in {} |-> 0], ev |-> <<>>]
 TraceNext == TNew \/ TLoad \/ TBegin \/ TStep \/ THost \/ TEnd
